@@ -6,3 +6,5 @@ FUNCTIONS = ['uxarray.grid.connectivity._build_edge_face_connectivity',
 STANDINS = ["incidence"]
 ASSUMPTIONS = []
 EXPLANATION = "builders under contract + bounded stand-in"
+LEVEL_TEXT = "_build_edge_face_connectivity proved with loop invariants for every manifold face-edge table (ghost fa/fb/pos), incl. 'f listed iff e is an edge of f' and boundary = (face, FILL); _construct_hole_edge_indices proved (exactly the one-face edges, increasing); node_face / face_face builders bounded"
+LEVEL_NOTE = "manifoldness is the property's precondition (ghost functions); np.where model; finite-scope instances only refute"
